@@ -211,6 +211,30 @@ pub fn run(ctx: &mut Ctx, rep: &mut Report) {
         else { rep.stat("known_scenario_no_longer_fails"); }
     }
     size_limit(ctx, rep, &mut corr);
+    // directed: a fold over an ap-filled stream whose body has a remote append, with a prelude that shifts the trace positions of
+    // the same appends between the two peers' data (merging then has to map positions; a lost iteration sub-trace loses appends)
+    {
+        let peers = peers_named(3);
+        let (a, b) = (lit(&peers[0].id), lit(&peers[1].id));
+        let prelude = seq(par(call(b.clone(), "svc", "str_early", vec![], stream("$early")), Instr::Null),
+                          par(fold_stream("$early", "je", par(call(b.clone(), "svc", "echo_ew", vec![sc("je")], stream("$ew")), next("je")), None), Instr::Null));
+        let body = par(seqs(vec![call(b.clone(), "svc", "echo_work", vec![sc("i")], stream("$out")), canon(a.clone(), "$out", "#o"), call(a.clone(), "obs", "seen_f1", vec![sc("i"), Val::Canon("#o".into())], Out::None)]), next("i"));
+        let script = seq(prelude, seq(seq(ap(lit("v1"), "$m"), ap(lit("v2"), "$m")), fold_stream("$m", "i", body, None)));
+        for round in 0..(if ctx.thorough { 40u64 } else { 8 }) {
+            let mut net = Net::new(&script.text(), &peers, &format!("c13-shifted-{round}"));
+            let mut r2 = Rng::new(ctx.seed ^ 0xC13 ^ (round * 7919));
+            run_random_det(&mut net, &mut r2, 60);
+            drain(&mut net, &mut r2, 200);
+            let mut cache = Cache::new(true);
+            let views = step_views(&script, &net, &mut cache);
+            let hc = HistCtx { tpl: None, script: &script, net: &net, views: &views, recursive: false, located: views.iter().flatten().all(|v| v.out.locs.is_ok()) };
+            let fails = check_history(&hc, rep);
+            rep.case(&format!("directed-shifted|{}", net.log.iter().map(|s| format!("{}:{}", s.peer, s.event)).collect::<Vec<_>>().join(",")), true, || json!({"template": "directed shifted positions", "air": net.air}));
+            rep.stat("directed_shifted_histories");
+            corr.history(ctx, rep, &net, &["code", "trace", "requests"]);
+            if let Some(fl) = fails.first() { rep.oracle_fail(fail_json(&net, "directed shifted positions", fl)); break; }
+        }
+    }
     let setup = Setup { prop: "C13", fields: &["code", "trace", "requests"], families: vec![Family::FoldVisit, Family::RecursiveFold, Family::WritersCanon, Family::RecursiveFold, Family::NewScopes, Family::FoldVisit, Family::NestedFolds, Family::StreamMap, Family::ParCanons],
         histories: (160, 3000), generated: (60, 2000), seed_salt: 0xC13, time_guard: (45, 700) };
     let (mut rec, mut rec_tainted) = (0u64, 0u64);
